@@ -300,6 +300,14 @@ def _get_item(ex, st, ctx, obj, k, node):
         return VNone
     if tag == "opq":
         return VOpq(fresh("opqitem", I))
+    if ctx.spec:
+        # specifications index dicts with string keys and sequences with integers: dispatch on the key
+        kt = static_tag(k)
+        if kt == "str":
+            return _dict_get(ex, st, ctx, obj, k, node)
+        if kt == "int":
+            return ex.branch_val(st, is_Str(obj), lambda x: _str_index(ex, x, ctx, obj, k, node),
+                                 lambda x: _list_get(ex, x, ctx, obj, k, node))
     # dynamic
     ok = z3.Or(is_Str(obj), is_Ref(obj))
     ex.raise_if(st, ctx, z3.Not(ok), "TypeError", node=node)
